@@ -97,21 +97,22 @@ func (fd *Finding) matchesComp(comp, whole Failure) bool {
 }
 
 type AggOpts struct {
-	VerifDir    string
-	RunDir      string // where shard results are
-	Prop        string
-	Tier        string
-	Seed        int64
-	Level       string
-	Rule        string
-	Assume      []string
-	WallS       float64
-	Record      string // finding id: write unlisted failures matching RecordRe into its cases file (maintainer command)
-	RecordRe    string
-	NConfigs    int
-	EvidenceDir string
-	ExtraCov    map[string]interface{}
-	BuildInfo   map[string]interface{}
+	VerifDir      string
+	RunDir        string // where shard results are
+	Prop          string
+	Tier          string
+	Seed          int64
+	Level         string
+	Rule          string
+	Assume        []string
+	WallS         float64
+	Record        string // finding id: write unlisted failures matching RecordRe into its cases file (maintainer command)
+	RecordRe      string
+	NConfigs      int
+	ExtraFailures []Failure
+	EvidenceDir   string
+	ExtraCov      map[string]interface{}
+	BuildInfo     map[string]interface{}
 }
 
 // Aggregate merges shard results, matches failures against known findings, writes evidence and replays.
@@ -199,6 +200,11 @@ func Aggregate(o AggOpts) int {
 	}
 	if len(tot.Samples) > 12 {
 		tot.Samples = tot.Samples[:12]
+	}
+	for _, f := range o.ExtraFailures {
+		tot.Failures = append(tot.Failures, f)
+		tot.FailCount++
+		tot.FailByKind[f.Kind]++
 	}
 	sort.Slice(tot.Failures, func(i, j int) bool {
 		if tot.Failures[i].Case != tot.Failures[j].Case {
